@@ -148,6 +148,37 @@ func c01Reuse(c *Ctx, n int) {
 		}
 		res.Case(fmt.Sprintf("R2|%d|%d|%s", a, b, later), true, cs2)
 		res.Count("reuse/same-defaults-twice+source-stops-setting")
+
+		// (iii) a default map whose VALUES are maps, one of them also referenced by a later field: every leaf no source
+		// set is the caller's default, whatever order the map is walked in
+		cs3 := map[string]any{"stream": "defaults: a map of maps, one inner map shared with a later field", "a": a}
+		lim := map[string]map[string]int{}
+		for k := 0; k < 8; k++ {
+			lim[fmt.Sprintf("r%d", k)] = map[string]int{"quota": 100*a + k}
+		}
+		shared := fmt.Sprintf("r%d", r.Intn(8))
+		d4 := &c01MCfg{Name: "dflt", Limits: lim, Fallback: lim[shared]}
+		var srcs []dials.Source
+		if r.Bool() {
+			srcs = append(srcs, &static.StringSource{Data: `{"Name":"from-source"}`, Decoder: &jsondec.Decoder{}})
+		}
+		dd, err4 := dials.Config(ctx, d4, srcs...)
+		if err4 != nil {
+			res.Add(Finding{Kind: "violation", What: "Config failed: " + err4.Error(), Case: cs3})
+		} else {
+			v := dd.View()
+			if !reflect.DeepEqual(v.Fallback, d4.Fallback) || !reflect.DeepEqual(v.Limits, d4.Limits) {
+				res.Add(Finding{Kind: "violation", What: "a leaf no source set is not the caller's default (map of maps, an inner map shared with a later field)", Case: cs3,
+					Expected: fmt.Sprintf("Fallback=%v (= Limits[%s])", d4.Fallback, shared), Observed: fmt.Sprintf("Fallback=%v Limits=%v", v.Fallback, v.Limits)})
+			}
+		}
+		res.Case(fmt.Sprintf("R3|%d|%s|%d", a, shared, len(srcs)), true, cs3)
 		cancel()
 	}
+}
+
+type c01MCfg struct {
+	Name     string
+	Limits   map[string]map[string]int
+	Fallback map[string]int
 }
